@@ -34,6 +34,11 @@ def setup_process() -> None:
     mod = sys.modules["semantiva"]
     if not os.path.abspath(mod.__file__).startswith(os.path.abspath(REPO) + os.sep):
         raise RuntimeError(f"semantiva imported from {mod.__file__}, expected under {REPO}")
+    # Bootstrap the registry the way every documented entry point does (CLI / YAML loader call
+    # apply_profile(RegistryProfile()) first), so that the lazily-loaded default modules are not
+    # a hidden "history" input of the registry.fingerprint environment pin.
+    from semantiva.registry import RegistryProfile, apply_profile
+    apply_profile(RegistryProfile())
     from . import lib
     lib.register()
     # quiet logger used for all pipelines
